@@ -342,27 +342,16 @@ pub(crate) fn install_clen_code(state: &mut State<'_>) {
     state.len_table = Table { codes: Codes::Codes, bits: 3 };
 }
 
-#[kani::proof]
-#[kani::unwind(16)]
-#[kani::stub(crate::inflate::inftrees::inflate_table, stub_table_ok)]
-#[kani::stub(core::fmt::write, stub_fmt_write)]
-#[kani::stub(core::panicking::panic_nounwind, stub_pn)]
-#[kani::stub(core::panicking::panic_nounwind_fmt, stub_pnf)]
-#[kani::stub(crate::inflate::inflate_fast_help, stub_fast_unreachable)]
-#[kani::stub(crate::inflate::State::len_and_friends, stub_laf_suspends)]
-#[kani::stub(crate::inflate::writer::Writer::copy_match, stub_copy_match_unreachable)]
-#[kani::stub(crate::inflate::writer::Writer::extend_from_window, stub_efw_unreachable)]
-fn ki5c_codelens() {
+fn codelens_instance(r: usize) {
+    // r = lengths still to come (concrete per instance)
     const TOTAL: usize = 257 + 3; // HLIT = 257, HDIST = 3
-    let input: [u8; 2] = kani::any();
+    let input: [u8; 1] = kani::any();
     let mut out = [0u8; 4];
     let mut win = [0u8; 8 + 64];
     let mut state = typed_state(&mut win, 0, Mode::CodeLens);
     install_clen_code(&mut state);
     state.nlen = 257;
     state.ndist = 3;
-    let r: usize = kani::any(); // lengths still to come
-    kani::assume(r >= 1 && r <= 12);
     let have0 = TOTAL - r;
     state.have = have0;
     // the lengths decoded so far: symbolic where it matters (the previous length and the end-of-block symbol)
@@ -377,20 +366,28 @@ fn ki5c_codelens() {
             kani::assume(eob == prev);
         }
     }
-    unsafe { state.bit_reader.update_slice(input.as_ptr(), 2) };
-    state.in_available = 2;
+    // 4 bits already in the register + 1 input byte = 12 symbolic bits
+    const NB: u32 = 4;
+    let pv: u64 = kani::any();
+    state.bit_reader.prime(NB as u8, pv);
+    let pv = (pv & 15) as u32;
+    unsafe { state.bit_reader.update_slice(input.as_ptr(), 1) };
+    state.in_available = 1;
     state.writer = unsafe { Writer::new_uninit(out.as_mut_ptr(), 0) };
+    // Z_TREES: the call returns right after the tables are built, so the decoder's main loop runs exactly once
+    state.flush = InflateFlush::Trees;
     let rc = state.dispatch();
-    // ---- reference RLE decoder over the same 16 bits
-    let v = input[0] as u32 | (input[1] as u32) << 8;
+    // ---- reference RLE decoder over the same 12 bits
+    const NBITS: u32 = NB + 8;
+    let v = pv | (input[0] as u32) << NB;
     let mut pos = 0u32;
     let mut have = have0;
     let mut last = prev;
     let mut ref_lens = [0u16; 12];
     let mut err = false;
     let mut k = 0;
-    while k < 8 && !err && have < TOTAL {
-        if pos + 2 > 16 {
+    while k < 6 && !err && have < TOTAL {
+        if pos + 2 > NBITS {
             break;
         }
         let b0 = (v >> pos) & 1;
@@ -398,7 +395,7 @@ fn ki5c_codelens() {
         let (sym, clen) = if b0 == 0 {
             (b1, 2)
         } else {
-            if pos + 3 > 16 {
+            if pos + 3 > NBITS {
                 break;
             }
             let b2 = (v >> (pos + 2)) & 1;
@@ -415,7 +412,7 @@ fn ki5c_codelens() {
             18 => (7, 11),
             _ => (0, 1),
         };
-        if pos + clen + extra > 16 {
+        if pos + clen + extra > NBITS {
             break; // item incomplete: wait for more input
         }
         let rep = base + ((v >> (pos + clen)) & ((1 << extra) - 1)) as usize;
@@ -449,8 +446,8 @@ fn ki5c_codelens() {
         if eob_len == 0 {
             assert!(rc == ReturnCode::DataError && matches!(state.mode, Mode::Bad), "missing end-of-block code");
         } else {
-            // tables built (stub), symbol decoding entered
-            assert!(rc == ReturnCode::Ok && matches!(state.mode, Mode::Len));
+            // tables built (stub), ready to decode symbols
+            assert!(rc == ReturnCode::Ok && matches!(state.mode, Mode::Len_));
             assert!(state.have == TOTAL);
         }
     } else {
@@ -462,9 +459,31 @@ fn ki5c_codelens() {
         kani::assume(j < 12 && j < have - have0);
         assert!(state.lens[have0 + j] == ref_lens[j]);
     }
-    kani::cover!(complete && eob_len != 0 && r == 12, "a run ends exactly at HLIT+HDIST");
+    kani::cover!(complete && eob_len != 0, "the sequence ends exactly at HLIT+HDIST");
     kani::cover!(err);
-    kani::cover!(complete && eob_len == 0);
-    kani::cover!(!err && !complete && have > have0);
+    kani::cover!(!err && !complete);
     core::mem::forget(state);
 }
+
+macro_rules! codelens_harness {
+    ($name:ident, $r:expr) => {
+        #[kani::proof]
+        #[kani::unwind(14)]
+        #[kani::stub(crate::inflate::inftrees::inflate_table, stub_table_ok)]
+        #[kani::stub(core::fmt::write, stub_fmt_write)]
+        #[kani::stub(core::panicking::panic_nounwind, stub_pn)]
+        #[kani::stub(core::panicking::panic_nounwind_fmt, stub_pnf)]
+        #[kani::stub(crate::inflate::inflate_fast_help, stub_fast_unreachable)]
+        #[kani::stub(crate::inflate::State::len_and_friends, stub_laf_suspends)]
+        #[kani::stub(crate::inflate::writer::Writer::copy_match, stub_copy_match_unreachable)]
+        #[kani::stub(crate::inflate::writer::Writer::extend_from_window, stub_efw_unreachable)]
+        fn $name() {
+            codelens_instance($r);
+        }
+    };
+}
+codelens_harness!(ki5c_codelens_r1, 1);
+codelens_harness!(ki5c_codelens_r3, 3);
+codelens_harness!(ki5c_codelens_r6, 6);
+codelens_harness!(ki5c_codelens_r11, 11);
+codelens_harness!(ki5c_codelens_r12, 12);
